@@ -107,11 +107,14 @@ def run(prop, tier, seed, only_replay=None):
     # 2. decide
     known = core.load_known()
     reported = []
+    known_printed = set()
 
     def report(key, what, payload, found_input=True):
         k = key_matches(known, prop, key)
         if k:
-            print("KNOWN-FINDING: property=%s %s (%s)" % (prop, k["what"], key))
+            if key not in known_printed:
+                known_printed.add(key)
+                print("KNOWN-FINDING: property=%s %s (%s)" % (prop, k["what"], key))
             return
         if any(r[0] == key for r in reported):
             return
